@@ -665,6 +665,11 @@ fn cont_props(prop: &str, tier: &str, seed: u64, threads: usize, out: &str) {
                 l.push(format!("g.rtlossy 0 {}", i * 7 + 1));
                 // ... and over node values that are changed in place between two serialisations
                 l.push(format!("g.rtcell 0 {}", i + 1));
+                // ... and documents with text keys (deserialised, serialised again and read back)
+                if i % 3 != 1 {
+                    let d = gen_cont::destr_case(&mut rng, all[i % 4], "x");
+                    l.extend(d.into_iter().skip(1).take(4));
+                }
                 l
             });
             extra.insert("histories".into(), format!("{nh} graphs serialised after members were removed and inserted again"));
